@@ -273,3 +273,12 @@ Require Copia.Proofs.TieConflictName.
 Theorem C06_conflict_names_are_translation_of_source : TieConflictName.conflict_name_is_translation.
 Proof. exact TieConflictName.conflict_name_is_translation_holds. Qed.
 Print Assumptions C06_conflict_names_are_translation_of_source.
+
+(** What a scan (bisync) or `current_hash` (hub) reads of one path is the translation of meta.rs `fingerprint_path` as the
+    source has it now: no fingerprint for an entry that cannot be lstat-ed / opened; a symbolic link by the BLAKE3 of its
+    target string; anything else by the BLAKE3 of exactly its bytes - for a regular file the digest the models use
+    (Gen/FingerprintGen.v, Proofs/TieFingerprint.v). *)
+Require Copia.Proofs.TieFingerprint.
+Theorem C06_fingerprint_is_translation_of_source : TieFingerprint.fingerprint_is_translation.
+Proof. exact TieFingerprint.fingerprint_is_translation_holds. Qed.
+Print Assumptions C06_fingerprint_is_translation_of_source.
